@@ -1195,6 +1195,33 @@ impl<K, V, S> HashMap<K, V, S> {
     }
 }
 
+#[cfg(feature = "verif")]
+impl<K, V, S> HashMap<K, V, S> {
+    /// Snapshot of the resize state (verification hook).
+    #[doc(hidden)]
+    pub fn verif_state(&self) -> crate::verif::State {
+        self.table.verif_state()
+    }
+
+    /// Cached-iterator view vs actual contents of the old table (verification hook).
+    #[doc(hidden)]
+    pub fn verif_cursor(&self) -> Option<(alloc::vec::Vec<usize>, alloc::vec::Vec<usize>)> {
+        self.table.verif_cursor()
+    }
+
+    /// Where `k` currently lives (verification hook).
+    #[doc(hidden)]
+    pub fn verif_locate<Q: ?Sized>(&self, k: &Q) -> crate::verif::Location
+    where
+        K: Borrow<Q>,
+        Q: Hash + Eq,
+        S: BuildHasher,
+    {
+        let hash = make_hash::<K, Q, S>(&self.hash_builder, k);
+        self.table.verif_locate(hash, equivalent_key(k))
+    }
+}
+
 impl<K, V, S> PartialEq for HashMap<K, V, S>
 where
     K: Eq + Hash,
